@@ -252,7 +252,7 @@ def memory_violation(ctx, name, n, place, config, c, a, b):
         ctx.violation("C06:memory:%s" % name,
                       "%s (n=%d, placement %s, %s build) %s" % (
                           name, n, place, config,
-                          "crashed: an access outside its slices hit a guard page" if (a is None or a.startswith("signal"))
+                          ("did not return within the harness watchdog (a loop that does not terminate)" if (a and "timeout" in a) else "crashed: an access outside its slices hit a guard page") if (a is None or a.startswith("signal"))
                           else "modified an input or memory around the result slice"),
                       {"kind": "input", "case": "exp " + c[:6000], "build": config, "observed": a, "expected": (b or "")[:2000]})
         return True
